@@ -348,7 +348,7 @@ func effectRows(c *Ctx, fn *ssa.Function) []siteRow {
 						}
 					}
 				}
-				add("stores", c.Expr(x.Addr), i, "value "+c.Expr(x.Val))
+				add("stores", c.Expr(x.Addr), i, "value "+c.ExprAt(x.Val, i.Block()))
 			case *ssa.Lookup:
 				if _, isMap := x.X.Type().Underlying().(*types.Map); !isMap {
 					return
@@ -399,7 +399,7 @@ func effectRows(c *Ctx, fn *ssa.Function) []siteRow {
 				}
 				var args []string
 				for _, a := range callArgs(cc) {
-					args = append(args, c.Expr(a))
+					args = append(args, c.ExprAt(a, i.Block()))
 				}
 				add("calls", n, i, "args ("+strings.Join(args, ", ")+")")
 			}
